@@ -47,12 +47,11 @@ def handle : List String → String
       match compileEx pat (ic == "1") with
       | .error e => s!"err {errName e}"
       | .ok d =>
-        match runKeep d.createInstance (cycle lines rep) with
-        | .error _ => "panic"
-        | .ok (rs, s) =>
-          let final := rs.map fun r => r.map fun x => s.pool.read x.1
+        match runKeep d.createInstance (cycle lines rep), matchAll d (cycle lines rep) with
+        | .ok (rs, _), .ok final =>
           let atRet := rs.map fun r => r.map fun x => x.2
           s!"ok n={renderNames d.groupNames} a={if final == atRet then 1 else 0} r={renderRes final}"
+        | _, _ => "panic"
     | _, _, _ => "bad-args"
   -- the SPECIFICATION evaluated on a structured pattern (the Go side renders and compiles it)
   | ["specp", ic, pre, keys, lits, lines, rep] =>
